@@ -16,11 +16,18 @@ CF = {
     "trop": CheckFn("fp-trop", "Model.Kleene", "fp_check_trop", Tup(GrammarT, List(Tup(Nat, List(TropV))), OPTS, Nat, OBS_TROP)),
     "bool": CheckFn("fp-bool", "Model.Kleene", "fp_check_bool", Tup(GrammarT, List(Tup(Nat, List(Bool))), OPTS, Nat, OBS_BOOL)),
 }
+NOBS = {"real": List(Tup(Nat, List(RealB))), "trop": List(Tup(Nat, List(TropB))), "bool": List(Tup(Nat, List(Bool)))}
+CF.update({
+    "nreal": CheckFn("newton-real", "Model.Newton", "newton_check_real", Tup(GrammarT, List(Tup(Nat, List(RealW))), Nat, NOBS["real"])),
+    "ntrop": CheckFn("newton-trop", "Model.Newton", "newton_check_trop", Tup(GrammarT, List(Tup(Nat, List(TropV))), Nat, NOBS["trop"])),
+    "nbool": CheckFn("newton-bool", "Model.Newton", "newton_check_bool", Tup(GrammarT, List(Tup(Nat, List(Bool))), Nat, NOBS["bool"])),
+})
 CHECKFNS = list(CF.values())
 ASSUMPTIONS = [
     "Real/Log values are judged against a certified enclosure [lo, u] of the least fixed point computed in exact rational arithmetic: lo = K rounded-down Kleene steps, u = inflated lo verified to be a pre-fixed point (Park); grammars for which no enclosure is found (near-critical or divergent) are discarded and counted",
     "only the direction 'budget exhausted => warning' is checked (the property does not forbid extra warnings)",
     "float32 is not exercised for recursive grammars",
+    "Newton stream: the implementation is run with kmax in {1,2,3} and tol = 1e-300 (Bool: 0), so that the stop test can only fire at an exact fixed point, where further passes change nothing (C02_newton_stationary); its unconverged result is compared inside Coq with the model's exact kmax-th Newton iterate (Real/Log: rtol 1e-6, atol 1e-9; Viterbi 1e-9; Bool exact) and with the kmax-th Kleene iterate as lower bound (C02_newton_sandwich)",
 ]
 METHODS = ["fixed-point", "newton", "linear"]
 CONFIGS2 = [SR("real", "float64", Fraction(1, 4)), SR("log", "float64", Fraction(1, 4)), SR("viterbi", "float64"), SR("bool", "bool")]
@@ -49,6 +56,112 @@ def run_impl(spec, sr, method, tol, kmax, ids="explicit", rng=None, rtol=None, a
         out[i] = [sr.obs(x, rtol, atol) if sr.name != "bool" else sr.obs(x) for x in dense_list(res[b.els[i]])]
     return False, warned, out
 
+# ---- Newton stream: the unconverged result after exactly kmax passes against newton_iter kmax ----
+def _nullary(w): return w
+def forced_newton_specs():
+    """hand-written non-linear recursive shapes"""
+    F = Fraction
+    def el(term, ty): return dict(term=term, type=ty)
+    out = []
+    # X -> X X a | b (nullary)
+    out.append(dict(nlabels=[2], elabels=[el(False, []), el(True, []), el(True, [])], start=0,
+        rules=[dict(lhs=0, nodes=[], edges=[(0, []), (0, []), (1, [])], ext=[]), dict(lhs=0, nodes=[], edges=[(2, [])], ext=[])],
+        weights={1: F(1), 2: F(1, 2)}, features=["forced:XXa|b"], recursive=True))
+    # cubic: X -> X X X a | b
+    out.append(dict(nlabels=[2], elabels=[el(False, []), el(True, []), el(True, [])], start=0,
+        rules=[dict(lhs=0, nodes=[], edges=[(0, []), (0, []), (0, []), (1, [])], ext=[]), dict(lhs=0, nodes=[], edges=[(2, [])], ext=[])],
+        weights={1: F(1), 2: F(1, 2)}, features=["forced:XXXa|b"], recursive=True))
+    # X(n) -> X(n) X(m) t(n,m) | u(n): arity 1, domain 2
+    out.append(dict(nlabels=[2], elabels=[el(False, [0]), el(True, [0, 0]), el(True, [0])], start=0,
+        rules=[dict(lhs=0, nodes=[0, 0], edges=[(0, [0]), (0, [1]), (1, [0, 1])], ext=[0]), dict(lhs=0, nodes=[0], edges=[(2, [0])], ext=[0])],
+        weights={1: [[F(1), F(1, 2)], [F(1, 4), F(1)]], 2: [F(1, 2), F(1)]}, features=["forced:arity1"], recursive=True))
+    # mutual: S -> X ; X -> Y Y a | b ; Y -> X c | d  (S one-step on top of a non-linear SCC {X, Y})
+    out.append(dict(nlabels=[2], elabels=[el(False, []), el(False, []), el(False, []), el(True, []), el(True, []), el(True, []), el(True, [])], start=0,
+        rules=[dict(lhs=0, nodes=[], edges=[(1, [])], ext=[]),
+               dict(lhs=1, nodes=[], edges=[(2, []), (2, []), (3, [])], ext=[]), dict(lhs=1, nodes=[], edges=[(4, [])], ext=[]),
+               dict(lhs=2, nodes=[], edges=[(1, []), (5, [])], ext=[]), dict(lhs=2, nodes=[], edges=[(6, [])], ext=[])],
+        weights={3: F(1), 4: F(1, 2), 5: F(1), 6: F(1, 4)}, features=["forced:mutual"], recursive=True))
+    # a linear SCC feeding a non-linear one: Y -> Y a | b ; X -> X X Y | Y
+    out.append(dict(nlabels=[2], elabels=[el(False, []), el(False, []), el(True, []), el(True, [])], start=0,
+        rules=[dict(lhs=0, nodes=[], edges=[(0, []), (0, []), (1, [])], ext=[]), dict(lhs=0, nodes=[], edges=[(1, [])], ext=[]),
+               dict(lhs=1, nodes=[], edges=[(1, []), (2, [])], ext=[]), dict(lhs=1, nodes=[], edges=[(3, [])], ext=[])],
+        weights={2: F(1), 3: F(1, 2)}, features=["forced:linear-below-nonlinear"], recursive=True))
+    return out
+
+def nonlinear_comps(spec):
+    """number of SCCs of the nonterminal graph with a rule having >= 2 edges labelled inside the SCC"""
+    nts = [i for i, e in enumerate(spec["elabels"]) if not e["term"]]
+    succ = {x: set() for x in nts}
+    for r in spec["rules"]:
+        for el, _ in r["edges"]:
+            if not spec["elabels"][el]["term"]: succ[r["lhs"]].add(el)
+    reach = {x: {x} for x in nts}
+    changed = True
+    while changed:
+        changed = False
+        for x in nts:
+            new = set(reach[x])
+            for y in list(reach[x]): new |= succ[y]
+            if new != reach[x]: reach[x] = new; changed = True
+    comps = {frozenset(y for y in nts if y in reach[x] and x in reach[y]) for x in nts}
+    return sum(1 for c in comps if any(sum(1 for el, _ in r["edges"] if el in c) >= 2 for r in spec["rules"] if r["lhs"] in c))
+
+NEWTON_SRS = [SR("real", "float64", Fraction(1, 4)), SR("bool", "bool"), SR("log", "float64", Fraction(1, 4)), SR("viterbi", "float64")]
+NCF = {"real": "nreal", "trop": "ntrop", "bool": "nbool"}
+
+def newton_case(spec, sr, kmax, ids="explicit", rng=None, patterned=False):
+    """run method='newton' with budget kmax and a stop test that can only fire at an exact fixed point"""
+    tol = 0 if sr.name == "bool" else 1e-300
+    raised, warned, out = run_impl(spec, sr, "newton", tol, kmax, ids=ids, rng=rng,
+                                   rtol=Fraction(1, 10**6) if sr.name in ("real", "log") else Fraction(1, 10**9),
+                                   atol=Fraction(1, 10**9), patterned=patterned)
+    return (grammar_wire(spec), weights_wire(spec, sr), kmax, sorted(out.items())), warned
+
+def newton_stream(tier, seed, violations):
+    rng = random.Random(seed * 31 + 7)
+    n = int(os.environ.get("VERIF_N_NEWTON", 0)) or (45 if tier == "quick" else 500)
+    specs = forced_newton_specs()
+    while len(specs) < n:
+        spec = gen.random_spec(rng, recursive=True, linear=False, allow_inf=False, max_nt=3, max_rules=3, max_nodes=3, max_edges=3, max_dom=2)
+        spec["weights"] = {el: gen.nested_map(w, lambda v: v if v <= 1 else Fraction(1, 2)) for el, w in spec["weights"].items()}
+        specs.append(spec)
+    bycf = {k: [] for k in NCF.values()}; meta = {k: [] for k in NCF.values()}
+    hist = dict(kmax={1: 0, 2: 0, 3: 0}, with_nonlinear_component=0, warned=0, semiring={})
+    distinct = set()
+    for i, spec in enumerate(specs):
+        nl = nonlinear_comps(spec)
+        for ci, sr in enumerate(NEWTON_SRS):
+            kmax = 1 + (i + ci) % 3
+            case = dict(spec=gen.spec_jsonable(spec), semiring=repr(sr), method="newton", tol=(0 if sr.name == "bool" else 1e-300), kmax=kmax, stream="newton")
+            call = "fggs.sum_products(fgg, method='newton', semiring=%r, tol=%g, kmax=%d)" % (sr, case["tol"], kmax)
+            try:
+                val, warned = newton_case(spec, sr, kmax, ids=["explicit", "implicit", "mixed"][i % 3], rng=rng, patterned=(i % 2 == 1))
+            except Exception as e:
+                violations.append(Violation("sum_products raised %r" % (e,), case=case, call=call, corr="corr:newton(kmax)", oracle="no exception"))
+                continue
+            hist["kmax"][kmax] += 1; hist["warned"] += bool(warned)
+            hist["semiring"][sr.name] = hist["semiring"].get(sr.name, 0) + 1
+            if nl:
+                hist["with_nonlinear_component"] += 1
+                distinct.add((json.dumps(gen.spec_jsonable(spec), sort_keys=True), sr.name, kmax))
+            k = NCF[sr.carrier()]
+            bycf[k].append(val); meta[k].append((case, call, val))
+    total = 0; nk = 0
+    for k, vals in bycf.items():
+        if not vals: continue
+        codes, n_k = run_model(CF[k], vals, seed=seed, coq_sample=3 if tier == "quick" else 20, tag="c02" + k)
+        nk += n_k; total += len(vals)
+        for (case, call, val), c in zip(meta[k], codes):
+            if c == 0: continue
+            what = {1: "after kmax Newton passes the returned value lies BELOW the kmax-th Kleene iterate (Newton must converge at least as fast as Kleene: C02_newton_sandwich)",
+                    4: "an entry of sum_products is missing",
+                    10: "the value returned after exactly kmax passes of newton differs from the model's kmax-th Newton iterate (Model/Newton.v: newton_iter)"}.get(c, "framework inconsistency (code %d)" % c)
+            violations.append(Violation(what, case=case, observed=dict(values=val[3]),
+                                        oracle={1: "Kleene lower bound (C02_newton_sandwich)"}.get(c), corr="C02 / corr:newton(kmax) = newton_iter kmax",
+                                        failing_input_found=c in (1, 4), call=call))
+    return dict(evaluations=total, distinct_nontrivial=len(distinct), kernel_reevaluated=nk, histogram=hist,
+                sample=(meta["nreal"][0][0] if meta["nreal"] else None))
+
 def f2_predicate(spec, sr, method):
     return sr.name == "viterbi" and method in ("newton", "linear")
 
@@ -56,7 +169,7 @@ def run(tier, seed):
     rng = random.Random(seed)
     n = int(os.environ.get("VERIF_N", 0)) or (150 if tier == "quick" else 1500)
     violations = []
-    bycf = {k: [] for k in CF}; meta = {k: [] for k in CF}
+    bycf = {k: [] for k in ("real", "trop", "bool")}; meta = {k: [] for k in bycf}
     feats = {}; distinct = set(); kinds = dict(values=0, budget=0, valueerror=0)
     for i in range(n):
         linear = rng.choice([True, False, None])
@@ -117,19 +230,27 @@ def run(tier, seed):
                                         oracle={1: "enclosure (C02_park)", 5: "expect_value_error", 6: "expect_value_error", 7: "must_warn"}.get(c),
                                         corr="C02 / corr:sum_products(recursive)", failing_input_found=c in (1, 4, 5, 6, 7), call=call, finding_key=fk))
     s0 = meta["real"][0] if meta["real"] else None
-    cov = dict(evaluations=total, distinct_nontrivial=len(distinct),
+    ncov = newton_stream(tier, seed, violations)
+    total += ncov["evaluations"]; nk += ncov["kernel_reevaluated"]
+    cov = dict(evaluations=total, distinct_nontrivial=len(distinct) + ncov["distinct_nontrivial"], newton_stream=ncov,
                rule="random recursive FGG specs (self-loops, mutually recursive SCCs, linear/non-linear recursion, weight-one cycles in Viterbi/Bool; Real/Log weights damped by 1/4; one sixth chain grammars with deep best derivations; half with sparse PatternedTensor weights where the values allow; a fifth built in two stages with a query in between) x {Real, Log, Viterbi, Bool} x method rotating over fixed-point/newton/linear; one third of the runs with budget kmax in {1,2} (warning expected when the first kmax+1 stopping tests provably fail), the rest with kmax=400 (values judged against the certified enclosure); all grammars are recursive hence non-trivial; distinct by spec",
                case_kinds=kinds, value_checks_conclusive=conclusive, value_checks_inconclusive_discarded=inconclusive,
                feature_histogram=feats, kernel_reevaluated=nk, kleene_steps=K_ENCL,
                samples=[dict(spec=gen.spec_jsonable(s0[0]), semiring=repr(s0[1]), method=s0[2], tol=s0[3], kmax=s0[4], observed=s0[5])] if s0 else [],
-               open_items=["Newton iterates between Kleene iterates and the least fixed point (EKL) -- tier B; newton/linear values are judged by the enclosure oracle, not by a model of the iteration",
+               open_items=["(tier B, CLOSED) Newton's method is modelled (Model/Newton.v) and C02_newton_sandwich is proved for every number of edges per rule (the Taylor inequality holds monomial by monomial; nothing is _partial). Remaining about newton: the model reads a MultiTensor as an environment (absent key = zero block; all Jacobian blocks present; elimination order = the component's order) -- that the presence pattern and the order of _order_nonterminals give the same vector is C09_multi_solve_refines, not re-proved at the level of newton's absent keys; F is the spec-level step (F_model = step on the range is the open bridge below); soundness of newton_check is proved per component (C02_newton_comp_refines / C02_kleene_comp_refines), not for the fold over the SCC order; rounding (the reason for the two maximum_ clamps, which are proved to be no-ops in exact arithmetic) and the tolerance semantics of the stop test are not modelled: with tol > 0 only the upper half (result <= every pre-fixed point) is a theorem for the returned value",
                            "must_warn unrolls the first kmax+1 stopping tests (kmax in {1,2}) on tables built with the code-shaped F_model; the loop theorems (C02_fixed_point_warns_iff, C02_newton_warns_iff) are about an abstract F/close -- F_model = step on the range (C01's spe theorem lifted to recursive components) is not connected here",
-                           "C02_linear_is_least_fixed_point (multi_solve J0 F0 is the least fixed point of a linearly recursive component, any elimination order / the code's order, all ordered star-semirings; instances for Bool, Real, Viterbi) takes as hypothesis that the MultiTensors J0/F0 hold lin_J0/lin_F0 at the row-major positions of the index tuples (tabulates_J0/tabulates_F0); that linear's sum_product_edges calls produce exactly these tables is C01's spe theorem and is not connected at table level, and Newton's linear sub-steps are not modelled; C02_scc_decomposition is proved for exactly solved components (Prop-level exact_run), not for the table-level driver with approximate per-component results"])
+                           "C02_linear_is_least_fixed_point (multi_solve J0 F0 is the least fixed point of a linearly recursive component, any elimination order / the code's order, all ordered star-semirings; instances for Bool, Real, Viterbi) takes as hypothesis that the MultiTensors J0/F0 hold lin_J0/lin_F0 at the row-major positions of the index tuples (tabulates_J0/tabulates_F0); that linear's sum_product_edges calls produce exactly these tables is C01's spe theorem and is not connected at table level (Newton's inner multi_solve calls are covered separately: C02_newton_solve_least builds the tables by tabulation, so no such hypothesis is left there); C02_scc_decomposition is proved for exactly solved components (Prop-level exact_run), not for the table-level driver with approximate per-component results"])
     return cov, violations
 
 def replay(path):
     r = json.load(open(path)); c = r["case"]
     spec = gen.spec_from_json(c["spec"])
+    if c.get("stream") == "newton":
+        sr = [s for s in NEWTON_SRS if repr(s) == c["semiring"]][0]
+        val, warned = newton_case(spec, sr, c["kmax"])
+        code = run_coq(CF[NCF[sr.carrier()]], [val], tag="replay")[0]
+        print("warned", warned, "values", val[3], "verdict code", code)
+        return 1 if code != 0 else 0
     sr = [s for s in CONFIGS2 if repr(s) == c["semiring"]][0]
     raised, warned, out = run_impl(spec, sr, c["method"], c["tol"], c["kmax"], rtol=Fraction(1, 10**6), atol=Fraction(1, 10**7))
     mi = METHODS.index(c["method"])
@@ -141,7 +262,7 @@ def replay(path):
 
 MANIFEST = dict(
     level="proof",
-    text="Coq: Kleene iterates of the grammar's equations are the bounded-depth derivation sums (C01's theorem), are monotone, stay below every pre-fixed point (Park), also when rounded down; hence [K rounded Kleene steps, verified pre-fixed point] encloses the least fixed point. Every value returned by fixed-point / newton / linear on generated recursive FGGs must meet that enclosure (exactly in Bool/Viterbi); budget-exhaustion warnings and the ValueError of method='linear' are compared with the control-flow model. Also proved: the loop shapes of fixed_point / newton warn iff the stopping test never held within the budget (the pre-repair newton loop never warns), ValueError iff method=linear meets a rule with two component edges, linearly recursive components are affine with linear's J0/F0 and multi_solve(J0, F0) -- what method='linear' and newton's downgrade return -- is their least fixed point in every ordered star-semiring (C02_linear_is_least_fixed_point, composed with C09_multi_solve_refines), SCC-by-SCC exact solution is the global least fixed point, and verdict 0 of the check implies the observed values are (Bool) / enclose (Viterbi) / meet a certified enclosure of (Real, Log) the least fixed point.",
-    note="Trusted: Coq kernel, extraction cross-checked by vm_compute, harness; Newton's iterates are not modelled (judged by the enclosure oracle); grammars without a certified enclosure are discarded (counted in evidence).",
-    technique="Coq proof (Park induction, Kleene = derivation sums) + certified-enclosure oracle on implementation outputs + control-flow correspondence",
+    text="Coq: Kleene iterates of the grammar's equations are the bounded-depth derivation sums (C01's theorem), are monotone, stay below every pre-fixed point (Park), also when rounded down; hence [K rounded Kleene steps, verified pre-fixed point] encloses the least fixed point. Every value returned by fixed-point / newton / linear on generated recursive FGGs must meet that enclosure (exactly in Bool/Viterbi); budget-exhaustion warnings and the ValueError of method='linear' are compared with the control-flow model. Also proved: the loop shapes of fixed_point / newton warn iff the stopping test never held within the budget (the pre-repair newton loop never warns), ValueError iff method=linear meets a rule with two component edges, linearly recursive components are affine with linear's J0/F0 and multi_solve(J0, F0) -- what method='linear' and newton's downgrade return -- is their least fixed point in every ordered star-semiring (C02_linear_is_least_fixed_point, composed with C09_multi_solve_refines), SCC-by-SCC exact solution is the global least fixed point, and verdict 0 of the check implies the observed values are (Bool) / enclose (Viterbi) / meet a certified enclosure of (Real, Log) the least fixed point. Newton (tier B): Model/Newton.v models the loop of sum_product.py:newton (F0 = max(F x, x); dX = multi_solve(J x, F0 - x); x += dX; x = max(x, F0); stop test; for/else warning) with the code-shaped Jacobian and multi_solve_model; proved for all ordered commutative star-semirings (premises about sub/maximum proved for Bool, Real, Viterbi): the Taylor inequality F(x) + J(x).d <= F(x+d) for rules with any number of edges, multi_solve on the tabulated blocks = least solution of y = A y + b, and the Esparza-Kiefer-Luttenberger sandwich Kleene_k <= Newton_k <= every pre-fixed point with Newton_k increasing and Newton_k <= F(Newton_k) (C02_newton_sandwich); both maximum_ clamps are no-ops in exact arithmetic; every iterate lies below the upper end of a certified enclosure and from iterate 4j on inside it; exact stop test + no warning => the result is the least fixed point; one pass solves a linearly recursive component exactly. Correspondence: method='newton' is run with kmax in {1,2,3} (stop test disabled by tol=1e-300) on non-linear recursive grammars in Real, Log, Viterbi, Bool and its unconverged result is compared inside Coq with the model's exact kmax-th Newton iterate (rtol 1e-6; Bool exact) and with the kmax-th Kleene iterate as lower bound.",
+    note="Trusted: Coq kernel, extraction cross-checked by vm_compute, harness; converged newton results are judged by the enclosure oracle, unconverged ones (kmax <= 3) by the model of the iteration; grammars without a certified enclosure are discarded (counted in evidence).",
+    technique="Coq proof (Park induction, Kleene = derivation sums, Taylor inequality + least solutions of linear systems for the Newton sandwich) + certified-enclosure oracle on implementation outputs + control-flow correspondence + model of Newton's iterates compared after a fixed number of passes",
     design_ref="DESIGN.md section 6, C02")
